@@ -2,6 +2,7 @@ import CfbVerif.Spec.Consts
 import CfbVerif.Phys.Api
 import CfbVerif.Phys.Codec
 import CfbVerif.Phys.DifatBack
+import CfbVerif.Phys.EntryBack
 /-!
 # C02 — write-through persistence: the byte image always reopens to the same state
 
@@ -125,6 +126,21 @@ theorem C02_open_reconstructs_tables (v4 : Bool) (ops : List GOp) (rows : List R
       openImg m (render g.p rows) =
         openAfterFat m (render g.p rows) h g.p.numSectors g.p.difatSectorIds g.p.difat g.p.fat :=
   open_fat_stage_all_reachable v4 ops rows m
+
+/-- **a rendered directory entry is decoded back, whole** (the whole-entry codec): the reader model's
+`readDirEntry` — name units, length field, terminator, UTF-16 decoding, type, colour, links, CLSID
+byte order, state bits, times, start sector, size under the version's mask, and every check of
+both modes — run where `renderEntry` started writing returns the entry the row describes, whatever
+follows in the file -/
+theorem C02_entry_decoded (b : ByteArray) (r : Row) (start len : Nat) (rest : List (Nat × Nat)) (m : Raw.Mode) (v4 : Bool)
+    (wf : RowWf r start len v4) :
+    readDirEntry m v4 (pushFields (renderEntry b r start len) rest) b.size = .ok (entryOf r start len) :=
+  readDirEntry_render b r start len rest m v4 wf
+
+/-- … and an unallocated slot as the blank entry -/
+theorem C02_unallocated_decoded (b : ByteArray) (rest : List (Nat × Nat)) (m : Raw.Mode) (v4 : Bool) :
+    readDirEntry m v4 (pushFields (renderUnallocated b) rest) b.size = .ok unallocEntry :=
+  readDirEntry_unallocated b rest m v4
 
 /-- the premises are met: in an example history (regular and mini streams, a removal) the FAT is within range, and an empty row list is well-formed -/
 def exOps : List GOp :=
